@@ -23,7 +23,9 @@ var workRoot = func() string {
 	return "/verif/.work/run"
 }()
 
-type tfunc struct{ f func(ctx context.Context) interface{} }
+type tfunc struct {
+	f func(ctx context.Context) interface{}
+}
 
 func (t tfunc) Func(ctx context.Context) interface{} { return t.f(ctx) }
 
@@ -46,6 +48,8 @@ func moduleFuncs() map[string]flamingo.TemplateFunc {
 		"escapeHtml": &templatefunctions.EscapeHTMLFunc{},
 		"parseInt":   &templatefunctions.ParseInt{},
 		"vpIdent":    plainFunc(func(x interface{}) interface{} { return x }),
+		// an application that registers a template function called "range" makes `range(a, b)` compile to the built-in __Range
+		"range": plainFunc(func(x interface{}) interface{} { return x }),
 	}
 }
 
